@@ -446,7 +446,14 @@ def evaluate(case, ctx, before, after, rc, stderr):
                                and after["w"][path][3] == vlib.sha(old))
                 what = (f"stray file w/{path} left behind ({detail})"
                         + ("; it holds the renamed old output" if same_as_old else ""))
-                if same_as_old and role == "<stem>.delete":
+                # Since the fix for the <stem>.delete clobbering, the old output is renamed to
+                # `<output>.<pid>.delete` before it is removed.
+                import re as _re
+                renamed_old = _re.fullmatch(_re.escape(os.path.basename(name)) + r"\.\d+\.delete",
+                                            os.path.basename(path)) is not None
+                if renamed_old:
+                    role = "<renamed-old-output>"
+                if (same_as_old and role == "<stem>.delete") or renamed_old:
                     # The old output, renamed by the background creator and never removed.
                     cause = case.get("cause") or (
                         "crash-before-remove-task" if outcome == "panic" else
@@ -468,8 +475,19 @@ def evaluate(case, ctx, before, after, rc, stderr):
                 viol.append((f"dir-touched:{role}:mode={eff}",
                              f"entries of directory w/{path} changed"))
             else:
-                viol.append((f"sibling-modified:{role}:{change}:mode={eff}",
-                             f"pre-existing file w/{path} {change}: {detail}"))
+                old = ctx["old"]
+                rec = after["w"][path]
+                if (role == "<stem>.delete" and old is not None and rec[0] == "f"
+                        and rec[3] == vlib.sha(old)):
+                    # Same destruction as the deleted sibling, seen when the process ended
+                    # between the rename and the background remove: the sibling's bytes were
+                    # replaced by the renamed old output.
+                    viol.append((f"sibling-clobbered:{role}:mode={eff}",
+                                 f"pre-existing file w/{path} was overwritten by the renamed old "
+                                 f"output of -o {name} ({detail})"))
+                else:
+                    viol.append((f"sibling-modified:{role}:{change}:mode={eff}",
+                                 f"pre-existing file w/{path} {change}: {detail}"))
     # Sanity of the harness itself (not verdicts): outcome as planned.
     planned_ok = outcome == "ok"
     if case.get("any_rc") and not isinstance(rc, str):
@@ -560,7 +578,10 @@ def thorough_cases():
     staged += [(4, c) for c in rotated_cases(["nofork"], per_core=2)]
     for st, c in staged:
         c["stage"] = st
-    return dedup_cases([c for _, c in staged if applicable(c)])
+    out = []
+    for st in (1, 2, 3, 4):
+        out += spread([c for s_, c in staged if s_ == st])
+    return dedup_cases([c for c in out if applicable(c)])
 
 
 def rotated_cases(forks, per_core):
@@ -579,8 +600,17 @@ def rotated_cases(forks, per_core):
     return cases
 
 
+def spread(cases):
+    """A fixed permutation (stride) of the enumeration order, so that a run that hits its wall
+    cap has still met every value of every axis. Not a sample: every member is run when no cap is
+    hit."""
+    n = len(cases)
+    stride = next(p for p in (389, 397, 401, 409, 419, 421) if n % p)
+    return [cases[(i * stride) % n] for i in range(n)]
+
+
 def quick_cases():
-    cases = rotated_cases(FORKS, per_core=1)
+    cases = spread(rotated_cases(FORKS, per_core=1))
     for c in cases:
         c["stage"] = 1
     return dedup_cases([c for c in cases if applicable(c)])
@@ -627,6 +657,16 @@ def setup_shared_dir(root, base, outs, kind, present):
 
 
 def run_pair(arg):
+    """run_pair_once, retried when the machine was too slow for the pause protocol."""
+    r = None
+    for _ in range(3):
+        r = run_pair_once(arg)
+        if not r["machinery"]:
+            break
+    return r
+
+
+def run_pair_once(arg):
     """One history of two concurrent links foo.x / foo.y. spec: points (pause point of each link or
     None), first (which link is started first and allowed to reach its pause point first),
     release (order in which the links are released; the first released link runs to its end before
@@ -642,6 +682,7 @@ def run_pair(arg):
         plog = os.path.join(root, "phaselog")
         before = snapshot(w)
         procs = [None, None]
+        machinery = None
         pdirs = [os.path.join(root, f"pause{i}") for i in (0, 1)]
         for d in pdirs:
             os.makedirs(d)
@@ -658,9 +699,16 @@ def run_pair(arg):
         def reached(i):
             if spec["points"][i] is None:
                 return True
-            return wait_for(os.path.join(pdirs[i], "reached"), 20)
+            return wait_for(os.path.join(pdirs[i], "reached"), 45)
 
         def release(i):
+            nonlocal machinery
+            try:
+                age = time.time() - os.stat(os.path.join(pdirs[i], "reached")).st_mtime
+            except OSError:
+                age = 0
+            if age > 50:
+                machinery = f"link {i} was paused for {age:.0f}s: the pause hook gives up at 60s"
             open(os.path.join(pdirs[i], "go"), "w").close()
 
         def finish(i):
@@ -677,7 +725,6 @@ def run_pair(arg):
             return p.returncode, err.decode("utf-8", "replace")
 
         order = [spec["first"], 1 - spec["first"]]
-        machinery = None
         rcs = [None, None]
         for i in order:
             start(i)
@@ -708,7 +755,11 @@ def run_pair(arg):
             if p in outs:
                 continue
             role = "<stem>.delete" if p == "foo.delete" else role_of(p, {"bystander.txt": "bystander"})
-            if change == "created" and p == "foo.delete" and after[p][0] == "f" and after[p][3] in (
+            import re as _re
+            if change == "created" and _re.fullmatch(r"foo\.[xy]\.\d+\.delete", p):
+                viol.append(("leftover:<renamed-old-output>:mode=unlink:exit-before-remove-task",
+                             f"w/{p} left behind ({detail}); it holds a renamed old output"))
+            elif change == "created" and p == "foo.delete" and after[p][0] == "f" and after[p][3] in (
                     vlib.sha(old + b"OLD:foo.x"), vlib.sha(old + b"OLD:foo.y")):
                 viol.append(("leftover:<stem>.delete:mode=unlink:exit-before-remove-task",
                              f"w/{p} left behind ({detail}); it holds a renamed old output"))
